@@ -53,6 +53,8 @@ type rec struct {
 	Want      int             `json:"want,omitempty"`
 	Form      string          `json:"form,omitempty"`
 	Part      string          `json:"part,omitempty"` // printed forms: the id / text / type the value was built from (hex)
+	Hang      string          `json:"hang,omitempty"` // -conc: why a receive can never complete (goroutine dump verdict)
+	Cap       int             `json:"cap,omitempty"`  // -conc: channel capacity of this lexer
 }
 
 var caps = []int{0, 1, 2, 64}
@@ -437,7 +439,15 @@ func main() {
 	only := flag.String("only", "", "comma separated list of groups to produce (default all)")
 	one := flag.String("one", "", "lex just this input (hex) and exit")
 	ck := flag.String("cksum", "", "checksum mode: comma separated list of prefixHex:depth; prints one JSON line per item")
+	conc := flag.Bool("conc", false, "concurrency mode: GOMAXPROCS+2 pending lexers, then further statements, then interleaved drain")
 	flag.Parse()
+	if *conc {
+		w = bufio.NewWriterSize(os.Stdout, 1<<20)
+		enc = json.NewEncoder(w)
+		concMode(*seed)
+		w.Flush()
+		return
+	}
 	if *ck != "" {
 		checksums(*ck)
 		return
